@@ -20,7 +20,7 @@ TT = models.TT
 
 
 def plan(tier):
-  return {'n_cases': 260 if tier == 'quick' else 5000, 'shards': 16}
+  return {'n_cases': 260 if tier == 'quick' else 20000, 'shards': 16}
 
 
 def mse(t, r):
